@@ -19,7 +19,9 @@ package suites
 // tags-ungated / auth-unconfigured.
 //
 // A session case is: cfg bits, SupportedCaps, probe names, then one argument per CAP event
-// (its Params joined by LF).
+// (its Params joined by LF).  The argument "\x01reconnect" is not an event: the client is
+// closed and connected again (same Client, new pipe), which must start from empty
+// tmpCap / enabledCap ("advertised earlier on THIS connection").
 
 import (
 	"bufio"
@@ -275,6 +277,14 @@ func startCapSession(cc capCfg) *capSession {
 		s.upg++
 		s.umu.Unlock()
 	})
+	s.connect()
+	return s
+}
+
+// connect runs MockConnect on a fresh pipe and waits for the registration burst; the lines
+// of all connections of the session accumulate in s.lines.
+func (s *capSession) connect() {
+	mark := len(s.snapshot())
 	in, out := net.Pipe()
 	s.peer = in
 	go func() {
@@ -293,7 +303,7 @@ func startCapSession(cc capCfg) *capSession {
 	}()
 	go func() { s.done <- s.c.MockConnect(out) }()
 	s.waitFor(func(l []string) bool {
-		for _, x := range l {
+		for _, x := range l[mark:] {
 			if strings.HasPrefix(x, "USER ") {
 				return true
 			}
@@ -304,8 +314,26 @@ func startCapSession(cc capCfg) *capSession {
 	for !s.c.IsConnected() && time.Now().Before(dl) {
 		time.Sleep(200 * time.Microsecond)
 	}
-	return s
 }
+
+// reconnect closes the client, waits for Connect to return and connects again.
+func (s *capSession) reconnect() bool {
+	s.c.Close()
+	select {
+	case <-s.done:
+	case <-time.After(20 * time.Second):
+		return false
+	}
+	s.peer.Close()
+	dl := time.Now().Add(20 * time.Second)
+	for s.c.IsConnected() && time.Now().Before(dl) {
+		time.Sleep(200 * time.Microsecond)
+	}
+	s.connect()
+	return true
+}
+
+const capReconnect = "\x01reconnect"
 
 func (s *capSession) upgrades() int {
 	s.umu.Lock()
@@ -380,24 +408,27 @@ func runCapSession(c Case) Result {
 	sigs := map[string]bool{}
 
 	// registration burst
+	checkReg := func(reg []string) {
+		idx := func(prefix string) int {
+			for i, l := range reg {
+				if strings.HasPrefix(l, prefix) {
+					return i
+				}
+			}
+			return -1
+		}
+		ls, nick, user := idx("CAP LS 302"), idx("NICK "), idx("USER ")
+		if cc.noTracking {
+			if ls >= 0 {
+				fail("ls-order", "CAP LS sent although tracking is disabled")
+			}
+		} else if !(ls >= 0 && nick > ls && user > nick) {
+			fail("ls-order", "registration burst %q does not put CAP LS 302 before NICK and USER", reg)
+		}
+	}
 	reg := s.snapshot()
 	obs.WriteString("reg=" + HexList(reg))
-	idx := func(prefix string) int {
-		for i, l := range reg {
-			if strings.HasPrefix(l, prefix) {
-				return i
-			}
-		}
-		return -1
-	}
-	ls, nick, user := idx("CAP LS 302"), idx("NICK "), idx("USER ")
-	if cc.noTracking {
-		if ls >= 0 {
-			fail("ls-order", "CAP LS sent although tracking is disabled")
-		}
-	} else if !(ls >= 0 && nick > ls && user > nick) {
-		fail("ls-order", "registration burst %q does not put CAP LS 302 before NICK and USER", reg)
-	}
+	checkReg(reg)
 	poss := s.c.VerifPossibleCaps()
 	obs.WriteString("|poss=" + HexList(poss))
 
@@ -430,7 +461,48 @@ func runCapSession(c Case) Result {
 	}
 	ended := false
 
+	probeAll := func(k int) {
+		obs.WriteString(";h=")
+		for _, p := range probes {
+			has, panicked := safeHasCap(s.c, p)
+			if panicked {
+				obs.WriteByte('!')
+				if !cc.noTracking {
+					fail("hascap-panic", "HasCapability(%q) panicked with tracking enabled", p)
+				}
+				continue
+			}
+			obs.WriteString(B(has))
+			if want := lookup(ledger, p); has != want {
+				if has == lookup(ledgerLit, p) {
+					fail("ack-removal-ignored", "round %d: HasCapability(%q)=%v; with \"-name\" in CAP ACK read as the acknowledged removal of name it must be %v", k, p, has, want)
+				} else {
+					fail("hascap-mismatch", "round %d: HasCapability(%q)=%v, acknowledged and not deleted=%v", k, p, has, want)
+				}
+			}
+		}
+	}
+
 	for k, ev := range events {
+		if ev == capReconnect {
+			mark := len(s.snapshot())
+			if !s.reconnect() {
+				fail("stall", "round %d: Connect did not return after Close", k)
+				obs.WriteString("|c:?")
+				break
+			}
+			// a new connection: nothing advertised, nothing acknowledged
+			advertised = map[string]bool{}
+			ledger = map[string]bool{}
+			ledgerLit = map[string]bool{}
+			reg := s.snapshot()[mark:]
+			checkReg(reg)
+			tmp, en := s.c.VerifCapState()
+			obs.WriteString("|c:reg=" + HexList(reg) + ";t=" + HexList(tmp) + ";e=" + HexList(en))
+			probeAll(k)
+			sigs["reconnect"] = true
+			continue
+		}
 		params := strings.Split(ev, "\n")
 		mark := len(s.snapshot())
 		upBefore := s.upgrades()
@@ -648,25 +720,7 @@ func runCapSession(c Case) Result {
 
 		// ---- HasCapability probes
 		if !ended {
-			obs.WriteString(";h=")
-			for _, p := range probes {
-				has, panicked := safeHasCap(s.c, p)
-				if panicked {
-					obs.WriteByte('!')
-					if !cc.noTracking {
-						fail("hascap-panic", "HasCapability(%q) panicked with tracking enabled", p)
-					}
-					continue
-				}
-				obs.WriteString(B(has))
-				if want := lookup(ledger, p); has != want {
-					if has == lookup(ledgerLit, p) {
-						fail("ack-removal-ignored", "round %d: HasCapability(%q)=%v; with \"-name\" in CAP ACK read as the acknowledged removal of name it must be %v", k, p, has, want)
-					} else {
-						fail("hascap-mismatch", "round %d: HasCapability(%q)=%v, acknowledged and not deleted=%v", k, p, has, want)
-					}
-				}
-			}
+			probeAll(k)
 		}
 		if ended {
 			break
@@ -813,6 +867,10 @@ func genCapEvents(r *rand.Rand, removal bool) []string {
 				add("*", "LS", "*", "*", genCapAdvert(r, removal))
 			}
 		}
+		if r.Intn(10) == 0 {
+			evs = append(evs, capReconnect)
+			lastAdvert = nil
+		}
 	}
 	return evs
 }
@@ -850,6 +908,9 @@ func capSessionProbes(evs []string) string {
 		}
 	}
 	for _, ev := range evs {
+		if ev == capReconnect {
+			continue
+		}
 		p := strings.Split(ev, "\n")
 		for _, tok := range strings.Split(p[len(p)-1], " ") {
 			n := capTokenName(tok)
@@ -903,6 +964,10 @@ func init() {
 			{"T", "", "multi-prefix", ev("*", "LS", "multi-prefix"), ev("me", "ACK", "multi-prefix")},
 			{"", "", "a", ev("me", "ACK", "multi-prefix "), ev("me", "ACK", ""), ev("me", "DEL", "")},
 			{"", "", "multi-prefix", ev("*", "LS", "multi-prefix multi-prefix=x multi-prefix"), ev("me", "ACK", "multi-prefix multi-prefix")},
+			// reconnects: nothing advertised or acknowledged on the old connection survives
+			{"", "", "multi-prefix away-notify batch", ev("*", "LS", "*", "multi-prefix"), capReconnect, ev("*", "LS", "away-notify"), ev("me", "ACK", "away-notify"), capReconnect, ev("me", "NEW", "batch"), ev("me", "ACK", "batch")},
+			{"S", "", "sasl message-tags", ev("*", "LS", "sasl message-tags"), ev("me", "ACK", "sasl message-tags"), capReconnect, capReconnect, ev("*", "LS", "")},
+			{"T", "", "multi-prefix", ev("*", "LS", "multi-prefix"), capReconnect, ev("me", "ACK", "multi-prefix")},
 		}
 	}))
 	Register(capSessionSuite("cap.ackremoval", true, func() []Case {
